@@ -1,9 +1,9 @@
 (* C04 — Change notifications fire exactly when something changed, with its snapshot.
-   Property theorems only.  The clause-level statement over whole histories (Run.spec_failures on
-   model_run) is evaluated by the correspondence check on every run; what is proved here are its
-   ingredients on arbitrary header maps / tracker states (see DESIGN.md, C04: notify_exact_partial). *)
+   Property theorems only.  C04_notify_exact is the statement over whole histories; the others are its
+   ingredients on arbitrary header maps / tracker states. *)
 From Coq Require Import List Bool NArith ZArith.
-From AUC Require Import Prelude.PyStr Prelude.PyDict C16.Model C16.Proofs C03.Model C03.Spec C04.Spec C04.Proofs.
+From AUC Require Import Prelude.PyStr Prelude.PyDict C16.Model C16.Proofs C03.Model C03.Spec C03.Run
+  C04.Spec C04.Proofs C04.Run C04.History.
 Import ListNotations.
 
 (* "a non-volatile header value differs from the previous message of that type": for all header maps
@@ -40,3 +40,28 @@ Theorem C04_at_most_one :
     end.
 Proof. exact at_most_one. Qed.
 Print Assumptions C04_at_most_one.
+
+(* The statement over whole histories.  For every history of the domain (any sequence of search responses,
+   ssdp:alive / ssdp:update / ssdp:byebye advertisements - valid or not, any header spelling, any types, any
+   locations inside the reading, any max-age - and purges; any ip-version oracle), at every step the tracker
+   model's notification is exactly the one C04.Spec.expect computes from the history alone: for a valid
+   sighting of device u with type ty, source "changed" (search) / a notification at all (alive) iff u was not
+   known and valid, or ty was never seen for u, or the location is new within an already known address family
+   (or u had no location), or some non-volatile header differs from the previous search response /
+   advertisement of that type; always for ssdp:update; ssdp:byebye iff u was known; nothing otherwise - for the
+   sending device and the message's type, at most one per message; and whenever a notification is due, the
+   combined headers handed out are the latest search headers overlaid by the latest advertisement headers for
+   that type (steps at which a stored location has silently run out lie outside the reading and are skipped,
+   as in the correspondence check).  [C04.Run.spec_failures] is the very function the correspondence check
+   runs on the implementation's observations. *)
+Theorem C04_notify_exact :
+  forall i : input, dom i = true -> C04.Run.spec_failures i (model_run i) = [].
+Proof. exact notify_exact. Qed.
+Print Assumptions C04_notify_exact.
+
+Theorem C04_history_clauses :
+  forall (ipv : pystr -> option N) (ops : list op) (t : tracker) (st : spec_state) (prev : obs) (n : N),
+    C03.Inv.Inv t -> MemRel t st -> o_devs prev = devs_of t -> in_domain ops = true ->
+    C04.Run.clauses_from ipv n st prev ops (run_from [] ipv t ops) = [].
+Proof. exact history_clauses. Qed.
+Print Assumptions C04_history_clauses.
